@@ -129,9 +129,11 @@ fn trip() -> impl Strategy<Value = Trip> {
         1 => (prop_oneof![Just(0.0), Just(89.9), Just(-89.9), Just(45.0)], prop_oneof![Just(0.0), Just(179.9), Just(-179.9), Just(-0.00001)]),
         1 => (-0.001f64..0.001, -0.001f64..0.001),
     ];
-    (fields(), prop_oneof![3 => any::<u32>(), 1 => Just(1_655_274_034u32), 1 => (0u32..512).prop_map(|k| k << 23), 1 => (0u32..512).prop_map(|k| (k << 23) | 0x7f_ffff)], refpos, -1.0f64..1.0, -1.0f64..1.0, any::<[u8; 2]>()).prop_map(|(fields, ts, (rl, ro), a, b, trailer)| {
-        let lat = (rl + a * 3.3 * 0.99).clamp(-90.0, 90.0);
-        let lon = ro + b * 6.7 * 0.99;
+    // offsets over the whole stated window (+-3.3 deg / +-6.7 deg; the decodable one is +-3.355 / +-6.711), edges boosted
+    let unit = || prop_oneof![6 => -1.0f64..1.0, 1 => Just(1.0f64), 1 => Just(-1.0f64), 1 => 0.99f64..1.0, 1 => -1.0f64..-0.99];
+    (fields(), prop_oneof![3 => any::<u32>(), 1 => Just(1_655_274_034u32), 1 => (0u32..512).prop_map(|k| k << 23), 1 => (0u32..512).prop_map(|k| (k << 23) | 0x7f_ffff)], refpos, unit(), unit(), any::<[u8; 2]>()).prop_map(|(fields, ts, (rl, ro), a, b, trailer)| {
+        let lat = (rl + a * 3.3).clamp(-90.0, 90.0);
+        let lon = ro + b * 6.7;
         Trip { fields, ts, reference: [rl, ro], truth: [lat, lon], trailer }
     })
 }
@@ -170,7 +172,7 @@ fn golden_pin(ctx: &Ctx) -> bool {
 }
 
 pub fn run(ctx: &Ctx) {
-    ctx.set_rule("(a) packets of length 0..=40 (random bytes; magic byte forced valid for 2/3; also well-formed encrypted packets with arbitrary words), any u32 timestamp, references from {finite, NaN, +-inf, +-1e300, i32 limits}: Ok or Err, never a panic, decoded latitude/longitude/speeds/track finite, track in [0,360), JSON renders. (b) field tuples (address, magic 0x10/0x20, type 0..15, flags, GPS 12 bits, altitude 0..8191 m, vertical speed, derivatives, multiplier, spare bits), timestamps on both key tables, references anywhere, truth = reference + offset within 0.99 of +-3.3 deg / +-6.7 deg taken numerically: packed and XXTEA-encrypted by an independent implementation; decoded address, address type, aircraft type, flags, GPS, altitude equal and position within 1.28e-5 deg. Non-trivial = (a) accepted packet, (b) truth more than 0.01 deg from the reference; distinct by hash.");
+    ctx.set_rule("(a) packets of length 0..=40 (random bytes; magic byte forced valid for 2/3; also well-formed encrypted packets with arbitrary words), any u32 timestamp, references from {finite, NaN, +-inf, +-1e300, i32 limits}: Ok or Err, never a panic, decoded latitude/longitude/speeds/track finite, track in [0,360), JSON renders. (b) field tuples (address, magic 0x10/0x20, type 0..15, flags, GPS 12 bits, altitude 0..8191 m, vertical speed, derivatives, multiplier, spare bits), timestamps on both key tables, references anywhere, truth = reference + offset anywhere in +-3.3 deg / +-6.7 deg (edges boosted) taken numerically: packed and XXTEA-encrypted by an independent implementation; decoded address, address type, aircraft type, flags, GPS, altitude equal and position within 1.28e-5 deg. Non-trivial = (a) accepted packet, (b) truth more than 0.01 deg from the reference; distinct by hash.");
     ctx.assume("independent key schedule + XXTEA encryption reproduce the repository's two captured packets byte for byte (checked at start)");
     ctx.assume("the echoed reference_lat/reference_lon inputs are not 'numbers of the record'; decoded quantities are");
     let pinned = golden_pin(ctx);
